@@ -76,8 +76,10 @@ ERaise ==
 
 ECancel ==
   /\ Is("cancel") /\ Once("cancel", Ev.n)
-  /\ IsJob(cfg, Ev.n) /\ S.st[Ev.n] = "cancelling" /\ Same
+  /\ IsJob(cfg, Ev.n) /\ S.st[Ev.n] = "cancelling"
   /\ S.tc[Ev.n] = S.now \/ StalledSince(S.tc[Ev.n])
+  \* the clean-up runs from the moment the cancellation is delivered
+  /\ S' = [S EXCEPT !.tc[Ev.n] = S.now]
 
 ERecancel == Is("recancel") /\ KeepM /\ S.st[Ev.n] = "cancelling" /\ Same
 
@@ -134,8 +136,10 @@ EDiag ==
 
 EShut ==
   /\ Is("shut") /\ Once("shut", Ev.n)
-  /\ IsJob(cfg, Ev.n) /\ S.sh[Ev.n] = "running" /\ Same
+  /\ IsJob(cfg, Ev.n) /\ S.sh[Ev.n] = "running"
   /\ S.ts[Ev.n] = S.now \/ StalledSince(S.ts[Ev.n])
+  \* the handler runs from the moment it is entered
+  /\ S' = [S EXCEPT !.ts[Ev.n] = S.now]
 
 EShutDone ==
   /\ Is("shut-done") /\ KeepM /\ Marked("shut", Ev.n)
